@@ -2,7 +2,7 @@
 #   delete fsync(messfd) / fsync(intdfd); delete substdio_flush before either fsync; move link(intd,todo) above fsync(intdfd);
 #   cleanup(): unlink mess before intd; triggerpull() before link; `len >= ADDR` -> `len > ADDR`; die(91) -> falls through
 import os, re
-from vlib import Obl, Prog, REPO
+from vlib import Obl, Prog, REPO, borrow
 
 UNITS = ["substdio.c", "triggerpull.c", "open_excl.c", "open_write.c", "ndelay.c", "fmtqfn.c", "fmt_ulong.c", "fmt_str.c",
          "fmt_uint.c", "fmt_uint0.c", "date822fmt.c", "datetime.c", "auto_split.c", "auto_qmail.c",
@@ -31,7 +31,7 @@ def obligations(tier):
     oss = ossified()
     common = dict(progs=[Prog("qmail-queue.c", main_as="queue_main")], repo=UNITS, sysrename=SYS,
                   functions=FUNCS, stubs=STUBS)
-    eb = [(5, 1)] if tier == "quick" else [(5, 2), (6, 1), (7, 1)]
+    eb = [(5, 2), (7, 1)] if tier == "quick" else [(5, 2), (7, 1), (8, 1), (9, 1), (7, 2)]   # measured: x1.5 per envelope byte, E=7 ~140 s
     obls = [
         Obl("queue_order", "queue.c", defines={"MODE": 0, "OSSIFIED_SEND": oss}, std_checks=False,
             grid=[{"E": e, "B": b} for (e, b) in eb],
@@ -76,4 +76,7 @@ def obligations(tier):
             claim="the SIGALRM handler performs no system call and exits 52 (it must not clean up)",
             expect_witnesses=["alarm_exit"], **common),
     ]
+    # layer 0 (DESIGN 2.2): the ideal buffered stream used above is only as good as its contract, so the lemmas that prove that
+    # contract on the REAL substdo.c / substdi.c / substdio_copy.c (anchors of this property) are decided as part of this check too
+    obls += borrow("C20", ["l0_substdio_out", "l0_substdio_in", "l0_substdio_copy"], tier)
     return obls
